@@ -18,25 +18,37 @@ TARGET_FNS = ["push", "pop", "_apply", "get", "transform_for", "transform", "_to
               "_install_tooling", "_uninstall_tooling", "autotool", "wrap_functions"]
 
 
-def gen_probe(rng, fn, table):
+CHAINS = {"plain": "callsother", "aug": "callsother"}  # callee -> a caller that reaches it
+
+
+def gen_probe(rng, fn, table, allow_overlay=False):
     qual = QUAL.get(fn, fn)
     fnir = table[qual]
     names = [n for n, f in ir.bound_names(fnir).items() if n not in fnir.get("free", ()) and n != "self"]
     focus = rng.choice(names + ["#value"])
-    lv = {"fn": qual, "caps": [], "sibs": []}
-    return {"sels": [{"levels": [lv], "focus": {"var": focus, "as": "foc" if focus[0] == "#" else focus}}],
-            "kind": "probe"}
+    levels = [{"fn": qual, "caps": [], "sibs": []}]
+    if fn in CHAINS and rng.random() < 0.4:
+        levels.insert(0, {"fn": CHAINS[fn], "caps": [], "sibs": []})
+    kind = "overlay" if allow_overlay and rng.random() < 0.35 else "probe"
+    return {"sels": [{"levels": levels, "focus": {"var": focus, "as": "foc" if focus[0] == "#" else focus}}],
+            "kind": kind}
 
 
 def gen(rng, tier, quarantine=()):
     prog, fns = fn_table("forms")
     table = dict(fns)
     shared = rng.sample(sorted(FNS), rng.choice([1, 1, 2]))
+    if rng.random() < 0.3:
+        shared = ["callsother", rng.choice(["plain", "aug"])]
     nthreads = rng.choice([2, 2, 3])
     threads = []
+    setup_tool = set()
     for t in range(nthreads):
         fn = rng.choice(shared)
-        probe = gen_probe(rng, fn, table) if (t < 2 or rng.random() < 0.5) else None
+        probe = gen_probe(rng, fn, table, allow_overlay=True) if (t < 2 or rng.random() < 0.5) else None
+        if probe and probe["kind"] == "overlay":
+            for lv in probe["sels"][0]["levels"]:
+                setup_tool.add(lv["fn"])
         calls = []
         for _ in range(rng.randint(1, 3)):
             f = rng.choice(shared)
@@ -55,7 +67,7 @@ def gen(rng, tier, quarantine=()):
         sched.update({"strategy": "targeted",
                       "targets": [{"fn": rng.choice(TARGET_FNS), "nth": rng.randint(1, 60)} for _ in range(k)],
                       "p": rng.choice([0.0, 0.0, 0.01])})
-    return {"prog": "forms", "threads": threads, "sched": sched, "ops": []}
+    return {"prog": "forms", "threads": threads, "sched": sched, "ops": [], "setup_tool": sorted(setup_tool)}
 
 
 def run(scenario):
